@@ -13,7 +13,7 @@ result = res[0][7:] if res else "error"
 dst = f"{V}/conforming/{cid}"
 os.makedirs(dst, exist_ok=True)
 for f in ("patch.diff", "demo_test.go", "pkg.txt", "note.md"):
-    if os.path.exists(os.path.join(src, f)):
+    if os.path.exists(os.path.join(src, f)) and os.path.realpath(src) != os.path.realpath(dst):
         shutil.copy(os.path.join(src, f), dst)
 meta = {"id": cid, "property": prop, "confirmed": confirmed,
         "confirmed_how": "tools/conf_run.sh in a scratch worktree of /repo: demo fails without the patch, existing suite and demo pass with it",
